@@ -907,7 +907,9 @@ class Table(Vector):
 
 	def _elementwise_compare(self, other, op):
 		other = self._check_duplicate(other)
-		if isinstance(other, Vector):
+		if isinstance(other, Vector) and other.ndims() == 2:
+			# (a table; a plain vector has one element per ROW, like a list, and is compared
+			# with every column below - as in table + vector and vector == table)
 			# Raise mismatched column counts
 			if len(self.cols()) != len(other.cols()):
 				raise ValueError(f"Column count mismatch: {len(self.cols())} != {len(other.cols())}")
